@@ -135,7 +135,7 @@ def model_match(case, model, impl):
     for op, m, a in zip(ops, mt, it):
         w = op.split()
         if w[0] == 't': t = int(w[1])
-        if w[0] in ('w', 'mw', 'par') and t >= deadline:
+        if w[0] in ('w', 'mw', 'par', 'mwb', 'hold') and t >= deadline:       # (every op that takes a writer may rotate)
             new = name_for(rot, kv['pre'], kv['suf'], t)
             if w[0] == 'par': steps.append((cur, new, int(w[1])))
             cur = new; deadline = (t // P + 1) * P
